@@ -350,6 +350,79 @@ fn fpp(ctx: &Ctx) -> SubReport {
     rep
 }
 
+
+// ---------------------------------------------------------------------------------------------
+// set operations between filters that differ in one parameter: refused, or no inserted item is lost
+
+#[derive(Debug, Clone, Serialize, Deserialize)]
+pub struct MismatchCase {
+    pub num_bits: u64,
+    pub num_hashes: u16,
+    pub seed: u64,
+    /// which parameter of the second filter differs: 0 seed, 1 num_hashes, 2 size in words, 3 nothing (control)
+    pub differ: u8,
+    pub delta: u8,
+    pub items_a: Vec<u64>,
+    pub items_b: Vec<u64>,
+    pub intersect: bool,
+}
+
+fn mismatch_case() -> impl Strategy<Value = MismatchCase> {
+    (64u64..=4096, 1u16..=12, any::<u64>(), 0u8..4, 1u8..=3, proptest::collection::vec(any::<u64>(), 1..30), proptest::collection::vec(any::<u64>(), 1..30), proptest::bool::weighted(0.3))
+        .prop_map(|(num_bits, num_hashes, seed, differ, delta, items_a, items_b, intersect)| MismatchCase { num_bits, num_hashes, seed, differ, delta, items_a, items_b, intersect })
+}
+
+fn mismatch(c: &MismatchCase, info: &mut CaseInfo) -> Result<(), Fail> {
+    let mut a = BloomFilterBuilder::with_size(c.num_bits, c.num_hashes).seed(c.seed).build();
+    let (bits_b, hashes_b, seed_b) = match c.differ {
+        0 => (c.num_bits, c.num_hashes, c.seed.wrapping_add(c.delta as u64)),
+        1 => (c.num_bits, c.num_hashes + c.delta as u16, c.seed),
+        2 => (c.num_bits + 64 * c.delta as u64, c.num_hashes, c.seed),
+        _ => (c.num_bits, c.num_hashes, c.seed),
+    };
+    let mut b = BloomFilterBuilder::with_size(bits_b, hashes_b).seed(seed_b).build();
+    for x in &c.items_a {
+        a.insert(*x);
+    }
+    for x in &c.items_b {
+        b.insert(*x);
+    }
+    let what = ["seed", "num_hashes", "size", "nothing"][c.differ as usize % 4];
+    info.label(format!("differs_in={what}"));
+    info.nontrivial = c.differ < 3;
+    let compatible = a.is_compatible(&b);
+    ensure!(compatible == (c.differ >= 3), "C09.is_compatible", "filters differing in {what}: is_compatible() = {compatible}");
+    let r = crate::kit::runner::guard(|| {
+        let mut m = a.clone();
+        if c.intersect {
+            m.intersect(&b);
+        } else {
+            m.union(&b);
+        }
+        Ok(m)
+    });
+    match r {
+        Err(_) => {
+            ensure!(c.differ < 3, "C09.compatible_refused", "a set operation between compatible filters panicked");
+            info.label("refused");
+        }
+        Ok(m) => {
+            info.label("accepted");
+            if !c.intersect {
+                for x in c.items_a.iter().chain(c.items_b.iter()) {
+                    ensure!(m.contains(x), "C09.union_false_negative", "union of filters differing in {what} was accepted, but item {x} inserted into an operand is not contained");
+                }
+            } else {
+                let both: BTreeSet<u64> = c.items_a.iter().copied().filter(|x| c.items_b.contains(x)).collect();
+                for x in &both {
+                    ensure!(m.contains(x), "C09.intersect_false_negative", "intersection of filters differing in {what} was accepted, but item {x} inserted into both operands is not contained");
+                }
+            }
+        }
+    }
+    Ok(())
+}
+
 pub fn def() -> PropDef {
     PropDef {
         id: "C09",
@@ -367,6 +440,16 @@ pub fn def() -> PropDef {
                 limit_factor: 1,
                 strategy: case_strategy,
                 check: run_case,
+            }),
+            Box::new(PropSub {
+                name: "set_operations_between_mismatched_filters",
+                rule: "two filters that differ in exactly one of seed / num_hashes / size (or in nothing: control), filled, then union or intersect under catch_unwind: is_compatible() must say so, and the operation is either refused (the documented panic) or loses no item inserted into an operand (into both, for intersect). non-trivial = the filters differ",
+                cases_quick: 20_000,
+                cases_thorough: 200_000,
+                max_shrink_iters: 400,
+                limit_factor: 1,
+                strategy: mismatch_case,
+                check: mismatch,
             }),
             Box::new(FnSub {
                 name: "fpp",
